@@ -1,13 +1,13 @@
 package main
 
 func init() {
-	regs := []string{"regimes/common", "regimes/de", "regimes/it", "regimes/fr", "regimes/pl", "regimes/gr", "regimes/at", "regimes/be", "regimes/ch", "regimes/co", "regimes/nl", "regimes/pt"}
+	regs := []string{"regimes/common", "regimes/de", "regimes/it", "regimes/fr", "regimes/pl", "regimes/gr", "regimes/at", "regimes/be", "regimes/ch", "regimes/co", "regimes/nl", "regimes/pt", "regimes/br", "regimes/in", "regimes/es"}
 	reg(&propCfg{
 		ID:      "C13",
 		Pkgs:    regs,
 		Lenient: regs,
 		Stages: []stage{
-			{Name: "checkdigits", Harness: `^H_C13_(Luhn|DE|IT|FR|FR_SIREN|PL|GR|AT|BE|CH|NL_Digits|NL_Format|PT|PL_SingleDigit|IT_SingleDigit|CH_SingleDigit|FR_SingleDigit)$`},
+			{Name: "checkdigits", Harness: `^H_C13_(Luhn|DE|IT|FR|FR_SIREN|PL|GR|AT|BE|CH|NL_Digits|NL_Format|PT|PL_SingleDigit|IT_SingleDigit|CH_SingleDigit|FR_SingleDigit|BR|IN|ES_Personal|ES_Org|ES_SingleDigit)$`},
 			{Name: "checkdigits-thorough", Harness: `^H_C13_(CO|NL|DE_SingleDigit|AT_SingleDigit)$`, ThoroughOnly: true, BudgetS: 150},
 		},
 		Functions: []string{"regimes/common.ComputeLuhnCheckDigit", "regimes/de.validateTaxCode+validateTaxCodeChecksum", "regimes/it.validateTaxCode", "regimes/fr.validateVATTaxCode+calculateVATCheckDigit+validateSIRENTaxCode",
@@ -179,17 +179,18 @@ func init() {
 func init() {
 	reg(&propCfg{
 		ID:      "C14",
-		Pkgs:    []string{"bill", ".", "c14n"},
-		Lenient: []string{"bill", "tax", "num", "cal", "currency", "cbc", "org", "pay", ".", "head", "dsig", "c14n"},
+		Pkgs:    []string{"bill", ".", "c14n", "regimes", "addons"},
+		Lenient: []string{"bill", "tax", "num", "cal", "currency", "cbc", "org", "pay", ".", "head", "dsig", "c14n", "l10n", "uuid", "i18n", "schema", "regimes/...", "addons/...", "catalogues/..."},
 		Stages: []stage{
 			{Name: "L0", Harness: `^H_C05_L0_`},
 			{Name: "nil-patterns", Harness: `^H_C14_|^H_C07_Tokens`, Subst: numSummaries, Needs: []string{"L0"}},
+			{Name: "addon-validators", Harness: `^H_C14V_`},
 		},
 		Functions: []string{"bill.calculate and callees on invoices", "bill.(*Payment).calculate", "bill.(*PaymentLine).calculate", "org.(*DocumentRef).Calculate", "bill.calculateLineItemPrice", "currency.Convert",
-			"gobl.(*Envelope).Verify / verifySignature", "head.(*Header).Contains", "c14n token layer (H_C07_Tokens)"},
+			"gobl.(*Envelope).Verify / verifySignature", "head.(*Header).Contains", "c14n token layer (H_C07_Tokens)", "bill.(*Invoice).ValidateWithContext and the validators of every regime and addon package it dispatches to"},
 		Stubs:   append([]string{"JWS contract stubs as in C09; json.Decoder token stub as in C07"}, billStubs...),
 		Bounds: map[string][]string{
-			"quick":    {"one-line invoice: item nil / without price / with price; item currency, document currency, alt-price currency, preceding-document currency each from {'', EUR, USD, ZZZ (undefined)}; tax object, taxes, percent, discounts (empty / percent with nil or set base), rate charge with nil or set rate and quantity, payment details / advances / due dates, exchange rates: present or nil by choice; numbers symbolic in small ranges", "payment: one line, debit / credit nil or set, currencies as above, document reference nil / without tax / with tax", "envelope: header nil / without digest / with digest; signature list empty / real signature / entry without JWS / nil entry; with and without key"},
+			"quick":    {"one-line invoice: item nil / without price / with price; item currency, document currency, alt-price currency, preceding-document currency each from {'', EUR, USD, ZZZ (undefined)}; tax object, taxes, percent, discounts (empty / percent with nil or set base), rate charge with nil or set rate and quantity, payment details / advances / due dates, exchange rates: present or nil by choice; numbers symbolic in small ranges", "payment: one line, debit / credit nil or set, currencies as above, document reference nil / without tax / with tax", "envelope: header nil / without digest / with digest; signature list empty / real signature / entry without JWS / nil entry; with and without key", "validators: a calculated one-line invoice of ES, FR, IT, GR, DE, MX, PT or PL x every published addon key x tax object as calculated / nil / empty x customer present / nil x customer tax id present / nil x line taxes present / nil x payment details x credit-note type, through Invoice.Validate with the real regime and addon validators"},
 			"thorough": {"same as quick"},
 		},
 		Outside:     []string{"arbitrary bytes through encoding/json / YAML parsing, hangs, the CLI process, error-key and JSON-serialisation of errors (reflection, I/O: not encodable)"},
@@ -243,16 +244,18 @@ func init() {
 func init() {
 	reg(&propCfg{
 		ID:      "C18",
-		Pkgs:    []string{"tax", "regimes/es", "regimes/pt", "regimes/fr"},
-		Lenient: []string{"tax", "cbc"},
+		Pkgs:    []string{"tax", "bill", "regimes", "addons"},
+		Lenient: []string{"tax", "cbc", "bill", "org", "num", "cal", "l10n", "currency", "uuid", "head", "pay", "regimes/...", "addons/...", "catalogues/...", "i18n", "dsig", "schema"},
 		Stages:  []stage{{Name: "leaf-rules", Harness: `^H_C18_`}},
-		Functions: []string{"tax.Extensions.Validate", "cbc.(*Definition).HasCode", "cbc.(*Definition).CodeDef", "tax.ExtensionForKey (native registry)", "regexp matching of the definition's pattern (NFA)"},
-		Stubs:     []string{"registry look-ups (ExtensionForKey, AllAddonDefs, AllRegimeDefs): native import", "cbc.Key.Validate on concrete keys: native call", "published files data/addons|regimes|catalogues/*.json read at run time as the oracle"},
+		Functions: []string{"tax.Extensions.Validate", "cbc.(*Definition).HasCode", "cbc.(*Definition).CodeDef", "tax.ExtensionForKey (native registry)", "regexp matching of the definition's pattern (NFA)",
+			"tax.(*Combo).ValidateWithContext", "tax.(*RegimeDef).InCategories / InCategoryRates", "bill.(*Invoice).ValidateWithContext with every nested ValidateWithContext / Validate it reaches", "bill.(*Invoice).supportedTags", "tax.TagsIn", "tax.AddonRegistered", "tax.Regime.Validate", "currency.Code.Validate", "regime validators of ES and FR (regimes/es.Validate, regimes/fr.Validate)"},
+		Stubs: []string{"registry look-ups (ExtensionForKey, AllAddonDefs, AllRegimeDefs, currency.Get, RegimeDefFor): native import; with a symbolic key the path forks over the registered keys of that length and 'none'", "cbc.Key.Validate on concrete keys: native call", "published files data/addons|regimes|catalogues|currency/*.json read at run time as the oracle",
+			"github.com/invopop/validation: model of its reflective struct walker and value dispatcher (engine/interp/validation.go); govalidator.IsURL natively on concrete strings", "normalisation (reflection-driven tax.Normalize) is skipped: the skeleton invoice is built in normal form and calculated with bill.calculate"},
 		Bounds: map[string][]string{
-			"quick":    {"every registered extension key with <= 40 listed codes; candidate value: every ASCII string of 1..3 bytes (symbolic)"},
+			"quick":    {"every registered extension key with <= 40 listed codes; candidate value: every ASCII string of 1..3 bytes (symbolic)", "combo keys: 3 document regimes x 4 country overrides x 3 categories x 4 rate keys", "invoice references: a valid calculated one-line ES or FR invoice in which one reference is replaced: currency = every three capital letters (symbolic), regime country = every two capital letters (symbolic), tag from the pool of all published tags of 8 regimes/addons plus an undefined one, addon key from all published keys plus two undefined ones, 5 categories, 6 rate keys"},
 			"thorough": {"keys with <= 300 listed codes"},
 		},
-		Outside:     []string{"that every reference position of every document type is wired to its rule (reflection-driven struct validation)", "category / rate-key membership rules, tag rules, currency and country code rules (not built in this session)", "values longer than 3 bytes"},
+		Outside:     []string{"reference positions other than those listed (identities, inboxes, units, payment means keys, scenario codes), document types other than invoices", "lower-case or longer currency / country candidates", "values longer than 3 bytes", "completeness (a defined reference being accepted) beyond the unchanged skeleton"},
 		Assumptions: []string{"the published JSON files are the oracle of what non-Go consumers see"},
 	})
 }
